@@ -71,7 +71,7 @@ CHECKS = {
             "bind unchanged; gevent and eventlet via shims; gthread/async connections accepted but never read are outside the statement (counted as a probe)",
             "deterministic simulation of reload histories with kernel-level observation of descriptors"),
     "C14": ("W4-master",
-            "seeded exploration of orderings of USR2 / TERM / QUIT / WINCH / HUP / kill of either master under client load, TCP and unix binds; the exec'd binary is the same real Arbiter started from the environment the real reexec() built",
+            "seeded exploration of orderings of USR2 / TERM / QUIT / WINCH / HUP / kill of either master under client load, TCP and unix binds; the exec'd binary is the same real Arbiter started from the environment the real reexec() built; stub workers, or (3/7 of the runs) the real sync/gthread/gevent/eventlet workers serving the clients on both sides of the hand-over",
             "execvpe model: non-CLOEXEC descriptors survive, environment replaced; systemd socket activation not in these histories",
             "deterministic simulation of two-master histories (fork+exec on the simulated kernel) with event-level invariants"),
     "C18": ("W3-worker",
